@@ -9,14 +9,15 @@ import sys
 
 fam = sys.argv[1]
 apply = "--apply" in sys.argv
+BASE = next((a.split("=", 1)[1] for a in sys.argv if a.startswith("--base=")), "builders-base")
 SRC = "/work/%s/verif" % fam
 DST = "/verif"
 SKIP_DIRS = {".git", ".lake", "__pycache__", "evidence", "replays"}
-SKIP_FILES = {"MANIFEST.json", "lean/.build.lock"}
+SKIP_FILES = {"MANIFEST.json", "lean/.build.lock", "known_findings.json"}
 
 
 def base_blob(rel):
-    p = subprocess.run(["git", "-C", DST, "show", "builders-base:" + rel], stdout=subprocess.PIPE,
+    p = subprocess.run(["git", "-C", DST, "show", BASE + ":" + rel], stdout=subprocess.PIPE,
                        stderr=subprocess.DEVNULL)
     return p.stdout if p.returncode == 0 else None
 
